@@ -511,65 +511,70 @@ def lexNumberRadix (r : Radix) (cs : List Nat) (startPos : Nat) : Except Err (Nu
   | none => .error ⟨.otherError, startPos⟩
   | some v => .ok (.int v, rest)
 
+/-- position of the lexer when `rest` is what remains of a `total`-character ASCII text that
+    started at `loc` -/
+def numPos (loc total : Nat) (rest : List Nat) : Nat := loc + (total - rest.length)
+
+/-- the `'.'` part of the float branch of `lex_normal_number` -/
+def numFrac (loc total : Nat) (t0 r0 : List Nat) : Except Err (List Nat × List Nat) :=
+  match r0 with
+  | 46 :: r1 =>
+    if r1.head? = some 95 then .error ⟨.otherError, numPos loc total r0⟩
+    else .ok (t0 ++ [46] ++ (radixRun .dec r1).1, (radixRun .dec r1).2)
+  | _ => .ok (t0, r0)
+
+/-- the exponent part of the float branch (`if let Some('e' | 'E') = self.window[0]`) -/
+def numExpo (loc total : Nat) (t1 r1 : List Nat) : Except Err (List Nat × List Nat) :=
+  match r1 with
+  | e :: r2 =>
+    if e = 101 ∨ e = 69 then
+      if r2.head? = some 95 then .error ⟨.otherError, numPos loc total r1⟩
+      else
+        let t2 := t1 ++ [101]                       -- `to_ascii_lowercase`
+        match r2 with
+        | s :: r3 =>
+          if s = 43 ∨ s = 45 then
+            if r3.head? = some 95 then .error ⟨.otherError, numPos loc total r2⟩
+            else .ok (t2 ++ [s] ++ (radixRun .dec r3).1, (radixRun .dec r3).2)
+          else .ok (t2 ++ (radixRun .dec r2).1, (radixRun .dec r2).2)
+        | [] => .ok (t2, [])
+    else .ok (t1, r1)
+  | [] => .ok (t1, [])
+
+/-- `f64::from_str` and the trailing `j` of the float branch -/
+def numFloatFinish (loc total : Nat) (t r : List Nat) : Except Err (NumTok × List Nat) :=
+  if ¬ floatTextOk t then .error ⟨.otherError, numPos loc total r⟩
+  else match r with
+    | j :: r' => if j = 106 ∨ j = 74 then .ok (.complex t, r') else .ok (.float t, r)
+    | [] => .ok (.float t, r)
+
+/-- the integer branch: trailing `j` or `parse::<BigInt>()` with the leading-zero rule -/
+def numIntFinish (loc total : Nat) (startIsZero : Bool) (t0 r0 : List Nat) : Except Err (NumTok × List Nat) :=
+  let int : Except Err (NumTok × List Nat) :=
+    match bigIntOfDigits .dec t0 with
+    | none => .error ⟨.panic, numPos loc total r0⟩                                 -- `.unwrap()`
+    | some v => if startIsZero ∧ v ≠ 0 then .error ⟨.otherError, numPos loc total r0⟩ else .ok (.int v, r0)
+  match r0 with
+  | j :: r' =>
+    if j = 106 ∨ j = 74 then
+      if floatTextOk t0 then .ok (.complex t0, r') else .error ⟨.panic, numPos loc total r'⟩   -- `.unwrap()`
+    else int
+  | [] => int
+
 /-- `lex_normal_number`; `loc` is the location of the first character of `cs` -/
 def lexNormalNumber (cs : List Nat) (loc : Nat) : Except Err (NumTok × List Nat) :=
-  let pos (rest : List Nat) : Nat := loc + (cs.length - rest.length)   -- ASCII only: bytes = chars
-  let startIsZero := cs.head? = some 48
-  let (t0, r0) := radixRun .dec cs
+  let total := cs.length                               -- ASCII only: bytes = chars
+  let startIsZero := decide (cs.head? = some 48)
+  let t0 := (radixRun .dec cs).1
+  let r0 := (radixRun .dec cs).2
   if r0.head? = some 46 ∨ atExponent r0 then
-    -- fraction
-    let frac : Except Err (List Nat × List Nat) :=
-      match r0 with
-      | 46 :: r1 =>
-        if r1.head? = some 95 then .error ⟨.otherError, pos r0⟩
-        else
-          let (t1, r2) := radixRun .dec r1
-          .ok (t0 ++ [46] ++ t1, r2)
-      | _ => .ok (t0, r0)
-    match frac with
+    match numFrac loc total t0 r0 with
     | .error e => .error e
     | .ok (t1, r1) =>
-      -- exponent
-      let expo : Except Err (List Nat × List Nat) :=
-        match r1 with
-        | e :: r2 =>
-          if e = 101 ∨ e = 69 then
-            if r2.head? = some 95 then .error ⟨.otherError, pos r1⟩
-            else
-              let t2 := t1 ++ [101]                       -- `to_ascii_lowercase`
-              match r2 with
-              | s :: r3 =>
-                if s = 43 ∨ s = 45 then
-                  if r3.head? = some 95 then .error ⟨.otherError, pos r2⟩
-                  else
-                    let (t3, r4) := radixRun .dec r3
-                    .ok (t2 ++ [s] ++ t3, r4)
-                else
-                  let (t3, r4) := radixRun .dec r2
-                  .ok (t2 ++ t3, r4)
-              | [] => .ok (t2, [])
-          else .ok (t1, r1)
-        | [] => .ok (t1, [])
-      match expo with
+      match numExpo loc total t1 r1 with
       | .error e => .error e
-      | .ok (t, r) =>
-        if ¬ floatTextOk t then .error ⟨.otherError, pos r⟩
-        else match r with
-          | j :: r' => if j = 106 ∨ j = 74 then .ok (.complex t, r') else .ok (.float t, r)
-          | [] => .ok (.float t, r)
-  else
-    match r0 with
-    | j :: r' =>
-      if j = 106 ∨ j = 74 then
-        if floatTextOk t0 then .ok (.complex t0, r') else .error ⟨.panic, pos r'⟩   -- `.unwrap()`
-      else
-        match bigIntOfDigits .dec t0 with
-        | none => .error ⟨.panic, pos r0⟩                                            -- `.unwrap()`
-        | some v => if startIsZero ∧ v ≠ 0 then .error ⟨.otherError, pos r0⟩ else .ok (.int v, r0)
-    | [] =>
-      match bigIntOfDigits .dec t0 with
-      | none => .error ⟨.panic, pos r0⟩
-      | some v => if startIsZero ∧ v ≠ 0 then .error ⟨.otherError, pos r0⟩ else .ok (.int v, r0)
+      | .ok (t, r) => numFloatFinish loc total t r
+  else numIntFinish loc total startIsZero t0 r0
 
 /-- `lex_number` -/
 def lexNumber (cs : List Nat) (loc : Nat) : Except Err (NumTok × List Nat) :=
